@@ -234,7 +234,14 @@ TEXT_ATOMS = ['"Foo"', '!"Foo"', '"Bar"', '!"Bar"', "c'foo'", "!c'foo'", "c'bar'
               '"plain"', "!c'done'", "'x9'", '!"a_b"', "c'a-b'", '!"(p)"']
 
 
+# a parenthesised group with ONE alternative next to atoms of the same sort: the group is a conjunct (intersection)
+GROUPED = ["o (x)", "(o) (x)", "P0-2 (P2-3)", "- (o +foo)", "o P1 (P1-3 o)", "(- | o) (o)", "o (o #home)", "P3 (P3) o", "x (x @work) | - (o)",
+           "(P0-4) (P3-9) (o | x)", "#home (#work)", "+foo | o (x (@home))"]
+
+
 def gen_query(rng, today):
+    if rng.random() < 0.08:
+        return "W " + rng.choice(GROUPED)
     if rng.random() < 0.15:
         atoms = rng.sample(TEXT_ATOMS, rng.randint(2, 3))
         if rng.random() < 0.3:
